@@ -5,3 +5,6 @@
 #define _ZN10QByteArray6resizeEi vpcore_QByteArray_resizeEi
 #define _ZN10QByteArray11reallocDataEj6QFlagsIN10QArrayData16AllocationOptionEE vpcore_QByteArray_reallocData
 #define _ZN10QByteArray6appendEc vpcore_QByteArray_appendEc
+/* UTF-8 codec: re-defined in bytes_models.c (non-ASCII case split VP_U8PAT); without VP_U8PAT the calls are forwarded to these */
+#define _ZN7QString13toUtf8_helperERKS_ vpcore_QString_toUtf8_helper
+#define _ZN7QString15fromUtf8_helperEPKci vpcore_QString_fromUtf8_helper
